@@ -79,6 +79,19 @@ impl BlockDecoder {
             }
             oti::FECEncodingID::RaptorQ => {
                 if let Some(SchemeSpecific::RaptorQ(scheme)) = oti.scheme_specific.as_ref() {
+                    if scheme.sub_blocks_length == 0
+                        || scheme.symbol_alignment == 0
+                        || oti.encoding_symbol_length == 0
+                        || oti.encoding_symbol_length % scheme.symbol_alignment as u16 != 0
+                    {
+                        return Err(FluteError::new(format!(
+                            "Wrong RaptorQ parameters T={} N={} Al={}",
+                            oti.encoding_symbol_length,
+                            scheme.sub_blocks_length,
+                            scheme.symbol_alignment
+                        )));
+                    }
+
                     let codec = fec::raptorq::RaptorQDecoder::new(
                         sbn,
                         nb_source_symbols as usize,
